@@ -95,7 +95,7 @@ func intersectSince(t1, t2 time.Time) time.Time {
 		return t2
 	case t2.IsZero():
 		return t1
-	case t1.After(t2):
+	case searchDate(t1).After(searchDate(t2)):
 		return t1
 	default:
 		return t2
@@ -108,11 +108,18 @@ func intersectBefore(t1, t2 time.Time) time.Time {
 		return t2
 	case t2.IsZero():
 		return t1
-	case t1.Before(t2):
+	case searchDate(t1).Before(searchDate(t2)):
 		return t1
 	default:
 		return t2
 	}
+}
+
+// searchDate returns the date a search criteria time stands for: only the
+// date is used, the time and timezone are ignored.
+func searchDate(t time.Time) time.Time {
+	y, m, d := t.Date()
+	return time.Date(y, m, d, 0, 0, 0, 0, time.UTC)
 }
 
 type SearchCriteriaHeaderField struct {
